@@ -34,6 +34,10 @@ class Boom(State):
     v: int
 
 
+class Mix(State):
+    v: int
+
+
 class Same(State):
     v: int
 
@@ -55,6 +59,7 @@ MERGE = {
     "Last": (Last, lambda x: Last(v=x), None),
     "Sum": (Sum, lambda x: Sum(v=x), lambda a, b: Sum(v=a.v + b.v)),
     "Boom": (Boom, lambda x: Boom(v=x), _boom),
+    "Mix": (Mix, lambda x: Mix(v=x), lambda a, b: Mix(v=2 * a.v + b.v)),
     "Same": (Same, lambda x: ONE, lambda a, b: Same(v=a.v + b.v)),
 }
 
@@ -74,6 +79,8 @@ def view_merge(cur, rec):
         return Sum(v=cur.v + rec.v)
     if isinstance(rec, Same):
         return Same(v=cur.v + rec.v)
+    if isinstance(rec, Mix):
+        return Mix(v=2 * cur.v + rec.v)
     return rec
 
 
@@ -353,11 +360,39 @@ def gen_trace(rnd, mtypes, ntasks=4, nscopes=8, nops=30, records=True):
     return tr
 
 
-def trace_kw(mtypes):
+def wide_trace(nchildren=258):
+    """one long-lived scope under which hundreds of scopes are opened and left one after another (a server scope with a
+    scope per request); it is left last and completes then - however many there were"""
+    d = MetricsDriver(["Cat"])
+    d.reset(dict(alive=[0], phase=[0] * (nchildren + 1)))
+    tr = [dict(ev="Init", init={})]
+
+    def enc(o):
+        def rec(x):
+            return dict(x, own={k: list(v) for k, v in x["own"].items()}, view={k: list(v) for k, v in x["view"].items()})
+        return dict(a=o["a"], cb=[[rec(x) for x in lst] for lst in o["cb"]], res=o["res"])
+
+    def step(name, args):
+        o = d.apply(name, tuple(args))
+        tr.append(dict(ev=name, args=list(args), obs=enc(o)))
+
+    try:
+        step("Open", [1, "s"])
+        for _ in range(nchildren):
+            step("Open", [1, "s"])
+            step("Close", [1])
+        step("Close", [1])
+        step("Drain", [])
+    finally:
+        d.close()
+    return tr
+
+
+def trace_kw(mtypes, ntasks=4, n=8):
     return dict(
         variables=["par", "kids", "phase", "mk", "kind", "done", "born", "doneAt", "cbq", "cblog", "vals", "cur", "tg", "stack",
                    "saved", "grp", "alive", "wait", "now", "nrec", "nops", "drained", "obs"],
-        constants=dict(NTasks=4, N=8, MaxOps=100000, MaxRec=100000, MaxT=100000,
+        constants=dict(NTasks=ntasks, N=n, MaxOps=100000, MaxRec=100000, MaxT=100000,
                        MTypes="{" + ", ".join(f'"{m}"' for m in mtypes) + "}", Kinds='{"s", "a"}', Prep="TRUE", Threads="TRUE", Bug='"none"'),
         config_vars=[], actions=dict(Open=2, Make=2, EnterMade=1, OffLoop=1, Close=1, Start=3, End=1, Tick=0, Record=2, Drain=0),
         internal="Internal", quiet="M!Rest",
